@@ -192,6 +192,49 @@ def oracle_apply(base, final, credit, n, flag):
     return None
 
 
+def one_call(ctx, g0, g1, d, sched, si, flag, n, shape, inp, asks, meta, hist=None):
+    from mitxgraders.exceptions import ConfigError
+    case = {'part': 'apply', 'sched': d, 'flag': flag, 'attempt': n, 'shape': shape, 'input': inp}
+    if hist is not None:
+        case['earlier_attempts_on_same_grader'] = hist[2]
+    base = unformat(g0(None, inp))
+    try:
+        kw = {} if n is None else {'attempt': n}
+        final = with_alarm(lambda: g1(None, inp, **kw), 10)
+        final_u = unformat(final)
+        outcome = None
+    except ConfigError as e:
+        outcome = 'ConfigError'
+        final_u = None
+    except Exception as e:
+        ctx.violation('attempt-credit call raises %s: %s' % (type(e).__name__, e), case)
+        return
+    # credit the property prescribes
+    credit = None
+    if n is not None:
+        try:
+            cv = sched(max(1, n))
+            credit = round(float(cv), 4)
+        except Exception:
+            credit = None
+    # oracle on the implementation
+    if n is None:
+        if outcome != 'ConfigError':
+            ctx.violation('attempt omitted but no ConfigError', case, impl=final_u)
+    elif outcome is not None:
+        ctx.violation('unexpected %s' % outcome, case)
+    else:
+        bad = oracle_apply(base, final_u, credit, n, flag)
+        if bad:
+            ctx.violation(bad, case, impl=final_u, expected={'base': base, 'credit': credit})
+    nt = n is not None and outcome is None and credit not in (0, 1) and any(e['grade_decimal'] > 0 for e in entries(base))
+    ctx.case({'case': case, 'impl': final_u if outcome is None else outcome},
+             nontrivial_key=('a', si, flag, n, shape, repr(inp), repr(hist)) if nt else None,
+             kind=('history:' if hist is not None else 'apply:') + shape)
+    asks.append({'op': 'apply_attempt', 'sched': {k: v for k, v in d.items() if k != 'ints'}, 'flag': flag, 'attempt': n, 'result': to_model_res(base)})
+    meta.append((case, outcome, final_u, credit if n is not None else None))
+
+
 def check_apply(ctx):
     from mitxgraders import StringGrader, ListGrader, SingleListGrader
     from mitxgraders.exceptions import ConfigError
@@ -235,41 +278,28 @@ def check_apply(ctx):
         g0 = mk()
         g1 = mk(attempt_based_credit=sched, attempt_based_credit_msg=flag)
         for inp in inps:
-            case = {'part': 'apply', 'sched': d, 'flag': flag, 'attempt': n, 'shape': shape, 'input': inp}
-            base = unformat(g0(None, inp))
-            try:
-                kw = {} if n is None else {'attempt': n}
-                final = with_alarm(lambda: g1(None, inp, **kw), 10)
-                final_u = unformat(final)
-                outcome = None
-            except ConfigError as e:
-                outcome = 'ConfigError'
-                final_u = None
-            except Exception as e:
-                ctx.violation('attempt-credit call raises %s: %s' % (type(e).__name__, e), case)
-                continue
-            # credit the property prescribes
-            if n is not None:
-                try:
-                    cv = sched(max(1, n))
-                    credit = round(float(cv), 4)
-                except Exception:
-                    credit = None
-            # oracle on the implementation
-            if n is None:
-                if outcome != 'ConfigError':
-                    ctx.violation('attempt omitted but no ConfigError', case, impl=final_u)
-            elif outcome is not None:
-                ctx.violation('unexpected %s' % outcome, case)
-            else:
-                bad = oracle_apply(base, final_u, credit, n, flag)
-                if bad:
-                    ctx.violation(bad, case, impl=final_u, expected={'base': base, 'credit': credit})
-            nt = n is not None and outcome is None and credit not in (0, 1) and any(e['grade_decimal'] > 0 for e in entries(base))
-            ctx.case({'case': case, 'impl': final_u if outcome is None else outcome},
-                     nontrivial_key=('a', si, flag, n, shape, repr(inp)) if nt else None, kind='apply:' + shape)
-            asks.append({'op': 'apply_attempt', 'sched': {k: v for k, v in d.items() if k != 'ints'}, 'flag': flag, 'attempt': n, 'result': to_model_res(base)})
-            meta.append((case, outcome, final_u, credit if n is not None else None))
+            one_call(ctx, g0, g1, d, sched, si, flag, n, shape, inp, asks, meta)
+    # call histories on ONE grader object: the attempt number (present, absent, below 1, large) varies from call to call,
+    # every call must behave as on a fresh grader (nothing about an earlier attempt may be remembered)
+    nhist = ctx.scale(60, 600)
+    for h in range(nhist):
+        si = rng.randrange(len(scheds)); flag = rng.random() < 0.7; shape = rng.choice(shapes)
+        d = scheds[si]; sched = make_sched(d)
+        if shape == 'single':
+            mk = lambda **kw: StringGrader(answers=answers, **kw); inps = inputs1
+        elif shape == 'singlelist':
+            mk = lambda **kw: SingleListGrader(answers=['a', 'b'], subgrader=StringGrader(), **kw); inps = ['a,b', 'a,x', 'x,y', 'b']
+        else:
+            k = 2 if shape == 'list2' else 3
+            mk = lambda **kw: ListGrader(answers=[answers] * k, subgraders=StringGrader(), ordered=True, **kw)
+            inps = [list(t) for t in itertools.product(inputs1[:3], repeat=k)]
+        g0 = mk()
+        g1 = mk(attempt_based_credit=sched, attempt_based_credit_msg=flag)
+        seq = [rng.choice(attempts) for _ in range(rng.randint(3, 9))]
+        if None not in seq[1:]:
+            seq.insert(rng.randint(1, len(seq)), None)       # an omitted attempt AFTER a supplied one
+        for pos, n in enumerate(seq):
+            one_call(ctx, g0, g1, d, sched, si, flag, n, shape, rng.choice(inps), asks, meta, hist=(h, pos, seq[:pos]))
     if ctx.driver:
         outs = ctx.driver.ask_many(asks)
         for (case, outcome, final_u, credit), o in zip(meta, outs):
